@@ -38,8 +38,11 @@ LEVEL_NOTE = (
     "DefaultsConform (coerce_default_value's own results conform), dict keys unique, literals with unique field names, default "
     "literals constant; a bare variable without runtime value at a nullable position is 'no value' by design (VarOK). That "
     "ValuesOfCorrectTypeRule is a static validate_input_literal call is a correspondence fact, not a theorem. replace_variables "
-    "only feeds custom scalars and is not modelled; out_name/out_type, fragment variables and non-str dict keys are outside the "
-    "model. Non-dict Mappings (MappingProxyType, ChainMap, UserDict, user Mapping), dict subclasses and non-list iterables (set, "
+    "only feeds custom scalars and is not modelled; out_name/out_type and non-str dict keys are outside the "
+    "model. Fragment variables (experimental fragment arguments) are modelled by the scoping rule scopeVars - a fragment-declared name "
+    "shadows the operation variable of the same name even when it has no value - and the iff theorem is stated for the scoped map "
+    "(coerce_iff_valid_literal_scoped); FragmentVariableValues sharing names with the operation variables are generated and "
+    "variables of both scopes are injected inside list and object literals. Non-dict Mappings (MappingProxyType, ChainMap, UserDict, user Mapping), dict subclasses and non-list iterables (set, "
     "frozenset, generator, deque, user iterable) are modelled (PyVal.mapping / dict / iter) and generated at every list and "
     "object position."
 )
@@ -64,7 +67,8 @@ ASSUMPTIONS = [
 ]
 EXPLANATION = (
     "Theorems: coerce_iff_valid_value, coerce_iff_valid_value_noOneOf, coerce_value_no_crash, non_dict_rejected_by_both, "
-    "wrong_containers_not_dict, validate_silent_path_independent, coerce_iff_valid_literal, coerce_literal_no_crash, "
+    "wrong_containers_not_dict, validate_silent_path_independent, coerce_iff_valid_literal, fragment_scope_shadows, "
+    "coerce_iff_valid_literal_scoped, coerce_literal_no_crash, "
     "rule_iff_coerce, scalar_value_conforms, scalar_literal_conforms, enum_value_conforms, coerced_conforms, "
     "coerced_conforms_literal, nullish_under_nonNull_rejected, null_is_valid_nullable, literal_roundtrip_leaf, literal_roundtrip, "
     "variables_total. Correspondence: model vs coerce_input_value, validate_input_value, value_to_literal, coerce_input_literal, "
@@ -536,6 +540,35 @@ def mutate_lit(rng, lit, varnames, depth=0):
     return lit
 
 
+def inject_var(rng, lit, name):
+    """replace one randomly chosen node of the literal (root, list item or field value) by `$name`"""
+    paths = []
+
+    def walk_(l, path):
+        paths.append(path)
+        if l[0] == "l":
+            for i, x in enumerate(l[1]):
+                walk_(x, path + (i,))
+        elif l[0] == "o":
+            for i, (_, x) in enumerate(l[1]):
+                walk_(x, path + (i,))
+
+    walk_(lit, ())
+    # prefer nested positions (the root is the "bare variable" case)
+    nested = [p_ for p_ in paths if p_]
+    target = rng.choice(nested) if nested and rng.random() < 0.85 else rng.choice(paths)
+
+    def rebuild(l, path):
+        if not path:
+            return ("v", name)
+        i = path[0]
+        if l[0] == "l":
+            return ("l", [rebuild(x, path[1:]) if j == i else x for j, x in enumerate(l[1])])
+        return ("o", [(k, rebuild(x, path[1:])) if j == i else (k, x) for j, (k, x) in enumerate(l[1])])
+
+    return rebuild(lit, target)
+
+
 def lit_has_var(l):
     if l[0] == "v":
         return True
@@ -830,7 +863,13 @@ def _work(args):
     chunk, seed, tier, drv, n_maps, per_map = args
     fw.use_repo()
     from graphql import GraphQLError, parse, print_ast, validate
-    from graphql.execution.values import VariableValues, VariableValueSource, get_variable_values
+    from graphql.execution.values import (
+        FragmentVariableValues,
+        FragmentVariableValueSource,
+        VariableValues,
+        VariableValueSource,
+        get_variable_values,
+    )
     from graphql.execution.get_variable_signature import GraphQLVariableSignature
     from graphql.pyutils import Undefined
     from graphql.type import GraphQLArgument, GraphQLDefaultInput, GraphQLField, GraphQLInt, GraphQLObjectType, GraphQLSchema
@@ -866,9 +905,9 @@ def _work(args):
         r = _call(validate_input_value, v, T, lambda e, p: errs.append(list(p)))
         return ("crash " + r[1]) if r[0] == "crash" else _paths(errs)
 
-    def literrs(node, T, vv):
+    def literrs(node, T, vv, fvv=None):
         errs = []
-        r = _call(validate_input_literal, node, T, lambda e, p: errs.append(list(p)), vv)
+        r = _call(validate_input_literal, node, T, lambda e, p: errs.append(list(p)), vv, fvv)
         return ("crash " + r[1]) if r[0] == "crash" else _paths(errs)
 
     for mi in range(n_maps):
@@ -959,6 +998,44 @@ def _work(args):
             {"a": None, "b": 1, "c": "A"},
         ))
 
+        # fragment variable values (experimental fragment arguments): names shared with the operation
+        # variables, each declared with a value, with an explicit null, or without any value
+        fragmaps = [None]
+        for _ in range(3):
+            fsrc, fco = {}, {}
+            for vn in rng.sample(["a", "b", "c", "d", "zz"], rng.randint(1, 4)):
+                ft = gen_type(rng, names + objn)
+                sig = GraphQLVariableSignature(vn, w.ty(ft), None)
+                r = rng.random()
+                cvv = Undefined
+                if r < 0.45:
+                    gv_ = gen_valid(rng, tm, ft, 0)
+                    if gv_ is not _NOVAL:
+                        rr = _call(coerce_input_value, w.mat(gv_), w.ty(ft))
+                        if rr[0] == "ok":
+                            cvv = rr[1]
+                elif r < 0.55:
+                    cvv = None
+                if cvv is Undefined:
+                    fsrc[vn] = FragmentVariableValueSource(sig)  # declared, no value
+                else:
+                    fsrc[vn] = FragmentVariableValueSource(sig, w.node(("n",)))
+                    fco[vn] = cvv
+            fragmaps.append(FragmentVariableValues(fsrc, fco))
+
+        def enc_fvars(fvv):
+            if fvv is None:
+                return "-"
+            ks = list(fvv.sources)
+            co = [f"{cv.enc_str(k)} {w.enc(v)}" for k, v in fvv.coerced.items()]
+            return f"+ {len(ks)} " + " ".join(cv.enc_str(k) for k in ks) + f" {len(co)}" + ("" if not co else " " + " ".join(co))
+
+        def scoped_has(vmm, fvv, name):
+            """the property's notion of scope: a fragment-declared name shadows the operation variable"""
+            if fvv is not None and name in fvv.sources:
+                return name in fvv.coerced
+            return vmm is not None and name in vmm.coerced
+
         def enc_vars(vv):
             if vv is None:
                 return "-"
@@ -1014,30 +1091,43 @@ def _work(args):
                     r2 = _call(coerce_input_literal, rl[1], T)
                     rep.evaluations += 1
                     conv2 = w.conv([], [litdata])
-                    add(f"cl {conv2} {etm} - {enc_type(t)} {enc_lit(litdata)}", "coerce_input_literal", {**inp, "literal": _show_l(litdata)}, showres(r2))
+                    add(f"cl {conv2} {etm} - - {enc_type(t)} {enc_lit(litdata)}", "coerce_input_literal", {**inp, "literal": _show_l(litdata)}, showres(r2))
                     if good and (r2[0] != "ok" or w.enc(r2[1], short=True) != w.enc(rc[1], short=True)):
                         rep.failures.append(Failure("roundtrip-differs", "coercing value_to_literal(v) does not give coerce_input_value(v)", {**inp, "literal": _show_l(litdata)}, showres(r2), showres(rc), "C15 literal_roundtrip"))
             # ---- literals
             base = to_lit(tm, t, pv)
             vm = rng.choice(varmaps)
-            varnames = list(vm.coerced) + ["zz"] if vm is not None else ["a"]
+            fv = rng.choice(fragmaps) if rng.random() < 0.45 else None
+            varnames = (list(vm.coerced) if vm is not None else []) + (list(fv.sources) if fv is not None else []) + ["zz", "a"]
             lit = mutate_lit(rng, base, varnames if rng.random() < 0.5 else [])
             if rng.random() < 0.1:
                 lit = rng.choice(SPECIAL_LITS)
+            if fv is not None:
+                # a fragment-declared name (with or without a value, shadowing or not) used inside the literal
+                shadow = [k for k in fv.sources if k not in fv.coerced and vm is not None and vm.coerced.get(k) is not None]
+                pick = shadow if shadow and rng.random() < 0.7 else list(fv.sources)
+                if pick and rng.random() < 0.6:
+                    lit = inject_var(rng, lit if lit[0] in ("l", "o") or rng.random() < 0.5 else base, rng.choice(pick))
             node = w.node(lit)
             hasvar = lit_has_var(lit)
             linp = {"typemap": _show_tm(tm), "type": _show_t(t), "literal": _show_l(lit), "variables": None if vm is None else _c16.srepr(dict(vm.coerced))}
-            rcl = _call(coerce_input_literal, node, T, vm)
-            vel = literrs(node, T, vm)
+            if fv is not None:
+                linp["fragment_variables"] = {"declared": list(fv.sources), "coerced": _c16.srepr(dict(fv.coerced))}
+                bump("literal:fragment-vars")
+                if vm is not None and any(k in vm.coerced and k not in fv.coerced for k in fv.sources):
+                    bump("literal:fragment-var-shadows-operation-var")
+            rcl = _call(coerce_input_literal, node, T, vm, fv)
+            vel = literrs(node, T, vm, fv)
             rep.evaluations += 2
-            convl = w.conv(([dict(vm.coerced)] if vm is not None else []) + ([rcl[1]] if rcl[0] == "ok" else []), [lit])
-            ev = enc_vars(vm)
+            convl = w.conv(([dict(vm.coerced)] if vm is not None else []) + ([dict(fv.coerced)] if fv is not None else [])
+                           + ([rcl[1]] if rcl[0] == "ok" else []), [lit])
+            ev = enc_vars(vm) + " " + enc_fvars(fv)
             add(f"cl {convl} {etm} {ev} {enc_type(t)} {enc_lit(lit)}", "coerce_input_literal", linp, showres(rcl))
             add(f"vl {convl} {etm} {ev} {enc_type(t)} {enc_lit(lit)}", "validate_input_literal", linp, vel)
             okl = rcl[0] == "ok" and rcl[1] is not Undefined
             bump(("literal:ok" if okl else "literal:invalid") + (":var" if hasvar else ""))
-            top_missing = lit[0] == "v" and (vm is None or lit[1] not in vm.coerced)
-            applicable = good and lit_unique(lit) and not top_missing and (vm is not None or not hasvar)
+            top_missing = lit[0] == "v" and not scoped_has(vm, fv, lit[1])
+            applicable = good and lit_unique(lit) and not top_missing and (vm is not None or fv is not None or not hasvar)
             if applicable:
                 if rcl[0] == "crash" or vel.startswith("crash"):
                     rep.failures.append(Failure("literal-raise", "coerce_input_literal / validate_input_literal raised", linp, [showres(rcl), vel], "no exception", "C15 coerce_iff_valid (literals)"))
@@ -1048,13 +1138,13 @@ def _work(args):
             elif good and not lit_unique(lit):
                 bump("literal:duplicate-fields")
             # static validation + the rule, for the same literal
-            if vm is not None:
+            if vm is not None or fv is not None:
                 vel0 = literrs(node, T, None)
-                add(f"vl {convl} {etm} - {enc_type(t)} {enc_lit(lit)}", "validate_input_literal(static)", linp, vel0)
+                add(f"vl {convl} {etm} - - {enc_type(t)} {enc_lit(lit)}", "validate_input_literal(static)", linp, vel0)
             else:
                 vel0 = vel
             if good and len(ruleq) < 24:
-                rc0 = rcl if vm is None else _call(coerce_input_literal, node, T)
+                rc0 = rcl if (vm is None and fv is None) else _call(coerce_input_literal, node, T)
                 ruleq.append((t, T, lit, node, vel0, rc0, linp))
         # ------------------------------------------------ the validation rule, one schema per type map
         if good and ruleq:
